@@ -398,6 +398,13 @@ func (o *Oracles) checkSnapshot(in *Instance, op *DiskOp) {
 		}
 		return
 	}
+	if m.Index <= o.restoreFloor {
+		// below a user Restore's burned index: followers may still be applying
+		// (and snapshotting) entries of the superseded epoch until they install
+		// the restored snapshot - the documented hazard window of Restore
+		o.stat("snapshot-below-restore-floor")
+		return
+	}
 	if ce, ok := o.committed[m.Index]; ok {
 		if ce.Term != m.Term {
 			o.w.violate("C11", "R2", "C11/R2/snapshot-term-differs-from-committed-entry",
@@ -438,7 +445,9 @@ func (o *Oracles) checkSnapshot(in *Instance, op *DiskOp) {
 				continue
 			} else if !ok {
 				// not sampled before it was compacted away: judge on the disks
-				if maj, _ := o.onMajority(c.Index, c.Term); !maj {
+				// (a snapshot vouches for a configuration entry only if it
+				// carries that very configuration)
+				if !o.configOnMajority(c) {
 					continue
 				}
 			}
@@ -816,4 +825,33 @@ func (o *Oracles) disks() string {
 		fmt.Fprintf(&b, "[%s: %s] ", id, ls)
 	}
 	return b.String()
+}
+
+// configOnMajority: a majority of the voters of some known configuration holds
+// configuration entry c in its log, or a snapshot that carries exactly c.
+func (o *Oracles) configOnMajority(c *cfgRec) bool {
+	holds := func(d *Disk) bool {
+		if l, ok := d.Logs[c.Index]; ok && l.Term == c.Term && l.Type == raft.LogConfiguration {
+			return true
+		}
+		for _, sn := range d.Snaps {
+			if sn.Meta.Index >= c.Index && sn.Meta.ConfigurationIndex == c.Index && sameCfg(sn.Meta.Configuration, c.Conf) {
+				return true
+			}
+		}
+		return false
+	}
+	for _, k := range o.configs {
+		vs := voters(k.Conf)
+		n := 0
+		for _, v := range vs {
+			if s := o.w.Servers[v]; s != nil && holds(s.Disk) {
+				n++
+			}
+		}
+		if n*2 > len(vs) {
+			return true
+		}
+	}
+	return false
 }
